@@ -80,8 +80,8 @@ def shape_preconditions(rng, w, shapes=None):
         k = len(a["params"])
         a["params"] = list(a["params"]) + [("?e%d" % k, "object"), ("?e%d" % (k + 1), "object")]
         a["group"] = False
-        for _ in range(6):
-            shape = rng.choice(shapes or SHAPES)
+        for attempt in range(6):
+            shape = rng.choice(shapes or SHAPES) if attempt < 3 else rng.choice(SHAPES)
             pre = shape_precondition(rng, w, a, shape)
             if pre is not None:
                 a["pre"] = pre
